@@ -166,6 +166,15 @@ func eqVec(c sym.Content, off, n *Term, want []*Term) *Term {
 	return And(cs...)
 }
 
+// expectBytes: replay oracle "the result is exactly these n octets" (evaluated under the counterexample)
+func expectBytes(fx *sym.FnExec, c sym.Content, n *Term) *sym.Expect {
+	o := fx.Cx.NewObj("expected", types.NewSlice(types.Typ[types.Uint8]), sym.ProvFresh)
+	return &sym.Expect{HasResult: true, Result: sym.SliceV{Nil: False, Obj: o, Off: bv64(0), Len: n, Cap: n},
+		Heap: map[*sym.Object]sym.Value{o: sym.ArrV{EW: 8, Len: n, C: c}}}
+}
+
+func vecContent(ts []*Term) sym.Content { return sym.CVec{E: ts, W: 8} }
+
 func taiListJob(w *core.World, k int) Job {
 	fn := w.Funcs["nasConvert.TaiListToNas"]
 	var tais []taiIn
@@ -178,8 +187,9 @@ func taiListJob(w *core.World, k int) Job {
 		Post: func(fx *sym.FnExec, entry, exit *sym.State, args []sym.Value, ret sym.Value, ri int) {
 			c, off, n := sliceContent(exit, ret)
 			allSame, w0, w2 := taiListSpec(tais)
-			fx.Oblige(exit, "nasConvert.TaiListToNas#post.onePlmn", "post", Implies(allSame, eqVec(c, off, n, w0)), "", "9.11.3.9, all PLMNs equal: header (type of list 00, number of elements - 1), PLMN, then the 3-octet TACs")
-			fx.Oblige(exit, "nasConvert.TaiListToNas#post.manyPlmns", "post", Implies(Not(allSame), eqVec(c, off, n, w2)), "", "9.11.3.9, different PLMNs: header (type of list 10, number of elements - 1), then complete TAIs (PLMN, TAC)")
+			ex := expectBytes(fx, sym.IteC(allSame, vecContent(w0), vecContent(w2)), Ite(allSame, bv64(uint64(len(w0))), bv64(uint64(len(w2)))))
+			fx.ObligeAux(exit, "nasConvert.TaiListToNas#post.onePlmn", "post", Implies(allSame, eqVec(c, off, n, w0)), "", "9.11.3.9, all PLMNs equal: header (type of list 00, number of elements - 1), PLMN, then the 3-octet TACs", ex)
+			fx.ObligeAux(exit, "nasConvert.TaiListToNas#post.manyPlmns", "post", Implies(Not(allSame), eqVec(c, off, n, w2)), "", "9.11.3.9, different PLMNs: header (type of list 10, number of elements - 1), then complete TAIs (PLMN, TAC)", ex)
 		}}}
 }
 
@@ -432,7 +442,7 @@ func serviceAreaJob(w *core.World, allowed bool, shape []int) Job {
 				}
 			}
 			total := bv64(4 + 3*k)
-			fx.Oblige(exit, "nasConvert.PartialServiceAreaListToNas#post", "post", And(Eq(n, total), fx.EqContent(c, off, want, bv64(0), total)), "", "9.11.3.49: allowed type (bit 8), type of list 00, number of elements - 1 (= number of TACs - 1), PLMN, 3-octet TACs in order")
+			fx.ObligeAux(exit, "nasConvert.PartialServiceAreaListToNas#post", "post", And(Eq(n, total), fx.EqContent(c, off, want, bv64(0), total)), "", "9.11.3.49: allowed type (bit 8), type of list 00, number of elements - 1 (= number of TACs - 1), PLMN, 3-octet TACs in order", expectBytes(fx, want, total))
 		}}}
 }
 
@@ -463,7 +473,12 @@ func ladnToNasJob(w *core.World, k int) Job {
 				Eq(at(p), Extract(7, 0, tl)),
 				Implies(allSame, eqVec(c, Add(off, Add(p, bv64(1))), n0, w0)),
 				Implies(Not(allSame), eqVec(c, Add(off, Add(p, bv64(1))), n2, w2)))
-			fx.Oblige(exit, "nasConvert.LadnToNas#post", "post", g, "", "9.11.3.30: length of DNN value, DNN value octets, length of the TAI list, TAI list of 9.11.3.9")
+			var want sym.Content = sym.CZero{W: 8}
+			want = sym.StoreC(want, bv64(0), Extract(7, 0, dnn.Len))
+			want = sym.CopyC(want, bv64(1), dnn.C, dnn.Off, dnn.Len)
+			want = sym.StoreC(want, p, Extract(7, 0, tl))
+			want = sym.CopyC(want, Add(p, bv64(1)), sym.IteC(allSame, vecContent(w0), vecContent(w2)), bv64(0), tl)
+			fx.ObligeAux(exit, "nasConvert.LadnToNas#post", "post", g, "", "9.11.3.30: length of DNN value, DNN value octets, length of the TAI list, TAI list of 9.11.3.9", expectBytes(fx, want, Add(Add(dnn.Len, tl), bv64(2))))
 		}}}
 }
 
